@@ -21,7 +21,7 @@ RULE = (
     "non-trivial = the output is not empty/constant (>= 1 edge, >= 2 positions, >= 2 clusters) and the schedule has >= 2 "
     "perturbations; a seeded function without an argument recipe is listed as uncovered"
 )
-BUDGET = {"quick": 2600, "thorough": 60000}
+BUDGET = {"quick": 4000, "thorough": 90000}
 ASSUMPTIONS = [
     "one interpreter process, no threads (the library has none); the interleavings are sampled schedules of RNG consumers",
     "arguments are deep-copied per call (uniform_hypergraph_configuration_model repairs its degree dict in place)",
@@ -73,7 +73,7 @@ PARAMS = {
     "barycenter_spring_layout": _fd(spec=Hspec, phantom=st.booleans()),
     "weighted_barycenter_spring_layout": _fd(spec=Hspec, phantom=st.booleans()),
     "bipartite_spring_layout": _fd(spec=Hspec),
-    "spectral_clustering": _fd(spec=Hspec, k=st.integers(2, 3)),
+    "spectral_clustering": _fd(spec=nets.net_spec(cls="H", kind="int", max_edges=8, max_size=4, min_edges=2, with_attrs=False, allow_empty=False, ids="auto"), k=st.integers(2, 4)),
 }
 
 
@@ -134,7 +134,8 @@ def call_args(name, p):
 
 @st.composite
 def cases(draw, tier):
-    name = draw(st.sampled_from(sorted(SEEDED)))
+    # spectral_clustering has data-dependent branches (degenerate spectra, empty k-means clusters): one draw in five
+    name = "spectral_clustering" if ("spectral_clustering" in SEEDED and draw(st.integers(0, 4)) == 0) else draw(st.sampled_from(sorted(SEEDED)))
     params = draw(PARAMS[name]) if name in PARAMS else None
     others = sorted(n for n in PARAMS if n in SEEDED and "layout" not in n and n != "spectral_clustering")
     pert = st.one_of(
